@@ -323,6 +323,11 @@ pub fn gen_c09(base_seed: u64, batch: &str, run: u64, rng: &mut Rng) -> Scenario
         p.calls.clear();
     }
     cfg.specials = vec![Special::LendClone];
+    // sometimes the exit code of report() is itself mocked (mock-std): the instance is then verified
+    // when it is dropped at the end of report()
+    if cfg!(feature = "stdworld") && rng.chance(1, 6) {
+        cfg.specials.push(Special::MockedReport { success: rng.chance(1, 2) });
+    }
     let st = Steer::new(&cfg);
     let n_threads = rng.range(1, 3);
     let n_events = rng.range(2, 12);
@@ -520,7 +525,11 @@ pub fn check_c09(scn: &Scenario) -> Checked {
                 // only the original verifies: handing a clone to report() consumes the clone, nothing
                 // is judged (no live-clone / wrong-thread panic, no FAILURE for unmet expectations)
                 *stats.probes.entry("report_on_a_clone".into()).or_default() += 1;
-                if !matches!(o.result, OpResult::ExitCode(true)) {
+                let mocked_code = scn.config.specials.iter().find_map(|sp| match sp {
+                    Special::MockedReport { success } => Some(*success),
+                    _ => None,
+                });
+                if o.result != OpResult::ExitCode(mocked_code.unwrap_or(true)) {
                     violations.push(v(
                         "C09",
                         "only-the-original-verifies",
@@ -538,9 +547,21 @@ pub fn check_c09(scn: &Scenario) -> Checked {
             }
             (Op::Drop { .. } | Op::Verify { .. } | Op::Report { .. }, Some(true)) => {
                 let Some(pre) = &o.pre else { continue };
-                if matches!(op, Op::Drop { .. }) && !verify_in_drop {
-                    if !matches!(o.result, OpResult::Quiet) {
-                        violations.push(v("C09", "no-verify-in-drop-disables", "drop", format!("drop after no_verify_in_drop(): {:?}", o.result)));
+                // report() with a mocked exit code hands out that code and then *drops* the instance
+                let mocked_report = match (&op, scn.config.specials.iter().find_map(|sp| match sp {
+                    Special::MockedReport { success } => Some(*success),
+                    _ => None,
+                })) {
+                    (Op::Report { .. }, Some(code)) => Some(code),
+                    _ => None,
+                };
+                if (matches!(op, Op::Drop { .. }) || mocked_report.is_some()) && !verify_in_drop {
+                    let quiet = match mocked_report {
+                        Some(code) => o.result == OpResult::ExitCode(code),
+                        None => matches!(o.result, OpResult::Quiet),
+                    };
+                    if !quiet {
+                        violations.push(v("C09", "no-verify-in-drop-disables", "drop", format!("{} after no_verify_in_drop(): {:?}", if mocked_report.is_some() { "report() with a mocked exit code" } else { "drop" }, o.result)));
                     }
                     *stats.probes.entry("drop_after_no_verify_in_drop".into()).or_default() += 1;
                     continue;
@@ -589,7 +610,29 @@ pub fn check_c09(scn: &Scenario) -> Checked {
                     continue;
                 }
                 // ordinary verdict: recorded errors, else the counts
-                let (p, m) = crate::oracle::unmet(&flat, pre);
+                let (p, mut m) = crate::oracle::unmet(&flat, pre);
+                let mocked_code = scn.config.specials.iter().find_map(|sp| match sp {
+                    Special::MockedReport { success } => Some(*success),
+                    _ => None,
+                });
+                if let (Op::Report { .. }, Some(code)) = (&op, mocked_code) {
+                    // the report() call itself matches the mocked method; the mocked code is handed out
+                    // and the instance is verified by its drop at the end of report(): unmet
+                    // expectations or recorded errors surface as that drop's panic
+                    m.retain(|x| *x != M::TermReport);
+                    let expect_fail = !pre.errors.is_empty() || !p.is_empty() || !m.is_empty();
+                    *stats.probes.entry("verdict_checked_mocked_report".into()).or_default() += 1;
+                    let ok = if expect_fail { matches!(o.result, OpResult::Panicked(_)) } else { o.result == OpResult::ExitCode(code) };
+                    if !ok {
+                        violations.push(v(
+                            "C09",
+                            "verdict",
+                            "mocked-report",
+                            format!("report() with a mocked exit code ({}): recorded errors {:?}, counts {:?} => {}, but {:?}", if code { "SUCCESS" } else { "FAILURE" }, pre.errors, pre.counts, if expect_fail { "the verification at the end of report() must fail" } else { "the mocked code must come back" }, o.result),
+                        ));
+                    }
+                    continue;
+                }
                 let expect_fail = !pre.errors.is_empty() || !p.is_empty() || !m.is_empty();
                 let failed = matches!(o.result, OpResult::Panicked(_) | OpResult::ExitCode(false));
                 *stats.probes.entry(format!("verdict_checked_{key}")).or_default() += 1;
